@@ -660,7 +660,7 @@ class RSndPairing(FunctionContract):
     """RosenbergStrong.pairing(x): the literature formula r_d, natural, and inside the shell of max(x)."""
     prop = "C14"
     target = P + "RosenbergStrong.pairing"
-    cases = (1, 2, 3)
+    cases = (1, 2, 3, 4)
 
     def __init__(self, spec=None):
         self.name = "RosenbergStrong.pairing"
@@ -1036,3 +1036,159 @@ def ctx_fresh(name):
 
 
 UNITS += [StatesManagerNext()]
+
+
+# ================================================================= bounded stand-ins (never counted as proved)
+class Bounded:
+    name = ""
+    tier = "quick"
+
+    def run(self, tier, seed):
+        raise NotImplementedError
+
+    def replay(self, rec):
+        return (False, {})
+
+
+class StatesEnumerationBounded(Bounded):
+    """B2 (native, exhaustive over a finite family): StatesManager over the real Domain/frontier computation enumerates
+    exactly the admissible non-origin states of small d-dimensional grids (centred and off-centre origins, both
+    pairings the factory uses).  Bound: axis sizes <= 7 (quick) / 9 (thorough), d in {1, 2, 3}."""
+    name = "bounded:states-enumeration"
+
+    def _grids(self, tier):
+        from rpylib.grid.spatial import CTMCGrid
+        sizes = [3, 5, 7] if tier == "quick" else [3, 5, 7, 9]
+        for d in (1, 2, 3):
+            for n in sizes:
+                if d == 3 and n > (5 if tier == "quick" else 7):
+                    continue
+                for o in sorted({n // 2, 1, n - 2}):
+                    axis = np_axis(n, o)
+                    yield d, n, o, CTMCGrid(h=0.1, origin_coordinate=o, axes=[axis.copy() for _ in range(d)])
+
+    def _enumerate(self, grid, pairing):
+        import numpy as np
+        from rpylib.distribution.pairing import Domain, Boundary, StatesManager
+        sm = StatesManager(pairing, Domain(Boundary(), grid, pairing), grid)
+        seen, idx = [], 0
+        for _ in range(200000):
+            st, done = sm.project_index_to_state_increment(idx)
+            if done:
+                break
+            seen.append(tuple(int(v) for v in np.atleast_1d(st)))
+            idx += 1          # the protocol of InversionMethod: the next index
+        return seen
+
+    def _case(self, d, n, o, grid, pname):
+        import itertools
+        from rpylib.distribution.pairing import PairingToZd, PairingToZ1d, Szudzik, RosenbergStrong
+        if d == 1:
+            pairing = PairingToZ1d((-o, n - o - 1))
+        else:
+            pairing = PairingToZd({"Szudzik": Szudzik, "RosenbergStrong": RosenbergStrong}[pname](), dimension=d)
+        seen = self._enumerate(grid, pairing)
+        want = set(itertools.product(*[range(-o, n - o) for _ in range(d)])) - {tuple([0] * d)}
+        return seen, want
+
+    def run(self, tier, seed):
+        ev, viol, samples = 0, [], []
+        for d, n, o, grid in self._grids(tier):
+            for pname in (["-"] if d == 1 else (["Szudzik", "RosenbergStrong"] if d == 2 else ["RosenbergStrong"])):
+                ev += 1
+                try:
+                    seen, want = self._case(d, n, o, grid, pname)
+                    bad = sorted(seen) != sorted(want)
+                    info = {"d": d, "axis_points": n, "origin_index": o, "pairing": pname, "enumerated": len(seen),
+                            "distinct": len(set(seen)), "admissible": len(want), "missing": sorted(want - set(seen))[:6],
+                            "repeated": sorted({s for s in seen if seen.count(s) > 1})[:6]}
+                except Exception as e:
+                    bad, info = True, {"d": d, "axis_points": n, "origin_index": o, "pairing": pname, "exception": f"{type(e).__name__}: {e}"}
+                if len(samples) < 3:
+                    samples.append(info)
+                if bad:
+                    viol.append({"obligation": f"{self.name}[pairing={pname},d={d}]::every-admissible-state-exactly-once",
+                                 "bounded": self.name, "witness": info})
+        # one violation record per obligation label (first witness)
+        uniq = {}
+        for v in viol:
+            uniq.setdefault(v["obligation"], v)
+        return {"name": self.name, "evaluations": ev, "distinct_nontrivial": ev, "violations": list(uniq.values()), "samples": samples,
+                "bound": "axis sizes <= 7 (quick) / 9 (thorough), d <= 3, origin index in {1, n//2, n-2}", "exhaustive": True}
+
+    def replay(self, rec):
+        w = rec["witness"]
+        from rpylib.grid.spatial import CTMCGrid
+        grid = CTMCGrid(h=0.1, origin_coordinate=w["origin_index"], axes=[np_axis(w["axis_points"], w["origin_index"]) for _ in range(w["d"])])
+        seen, want = self._case(w["d"], w["axis_points"], w["origin_index"], grid, w["pairing"])
+        return (sorted(seen) != sorted(want), {"enumerated": len(seen), "admissible": len(want)})
+
+
+def np_axis(n, o):
+    import numpy as np
+    return np.array([0.1 * (k - o) for k in range(n)])
+
+
+class RoundTripBounded(Bounded):
+    """B2 (native, exhaustive up to a bound): pairing(projection(z)) == z, projection(z) in N^d, projection(pairing(x)) == x
+    for the maps with no deductive proof: HyperbolicPairing (d=2), PepisKalmar (d=2), RosenbergStrong d=4."""
+    name = "bounded:round-trips"
+
+    def run(self, tier, seed):
+        import itertools
+        from rpylib.distribution import pairing as P_
+        N = {"HyperbolicPairing": 12000 if tier == "quick" else 60000, "PepisKalmar": 20000 if tier == "quick" else 200000,
+             "RosenbergStrong4": 6561 if tier == "quick" else 65536}
+        ev, viol, samples = 0, [], []
+        for name, n in N.items():
+            bad = None
+            if name == "RosenbergStrong4":
+                o, d = P_.RosenbergStrong(), 4
+                proj = lambda z: tuple(int(v) for v in o.projection(z, 4))
+                pair = lambda x: o.pairing(tuple(x))
+            else:
+                o, d = getattr(P_, name)(), 2
+                proj = lambda z: tuple(int(v) for v in o.projection(z, 2))
+                pair = lambda x: o.pairing(tuple(x))
+            seen = set()
+            for z in range(n):
+                ev += 1
+                try:
+                    x = proj(z)
+                    ok = len(x) == d and all(c >= 0 for c in x) and pair(x) == z and x not in seen
+                    seen.add(x)
+                except Exception as e:
+                    ok, x = False, f"{type(e).__name__}: {e}"
+                if not ok:
+                    bad = {"map": name, "z": z, "projection": x if isinstance(x, str) else list(x)}
+                    break
+            if bad is None and d == 4:
+                for x in itertools.product(range(5), repeat=4):
+                    ev += 1
+                    if proj(pair(x)) != x:
+                        bad = {"map": name, "x": list(x), "pairing": pair(x), "projection_of_pairing": list(proj(pair(x)))}
+                        break
+            samples.append({"map": name, "indices_checked": n, "first_failure": bad})
+            if bad is not None:
+                viol.append({"obligation": f"{self.name}[{name}]::mutually-inverse-up-to-{n}", "bounded": self.name, "witness": bad})
+        return {"name": self.name, "evaluations": ev, "distinct_nontrivial": ev, "violations": viol, "samples": samples,
+                "bound": str(N), "exhaustive": True}
+
+    def replay(self, rec):
+        from rpylib.distribution import pairing as P_
+        w = rec["witness"]
+        name = w["map"]
+        if name == "RosenbergStrong4":
+            o = P_.RosenbergStrong()
+            if "z" in w:
+                x = tuple(int(v) for v in o.projection(w["z"], 4))
+                return (o.pairing(x) != w["z"] or any(c < 0 for c in x), {"z": w["z"], "projection": list(x), "pairing": o.pairing(x)})
+            x = tuple(w["x"])
+            return (tuple(int(v) for v in o.projection(o.pairing(x), 4)) != x, {"x": list(x)})
+        o = getattr(P_, name)()
+        z = w["z"]
+        x = tuple(int(v) for v in o.projection(z, 2))
+        return (o.pairing(x) != z or any(c < 0 for c in x), {"z": z, "projection": list(x), "pairing_back": o.pairing(x)})
+
+
+BOUNDED = [StatesEnumerationBounded(), RoundTripBounded()]
